@@ -43,7 +43,7 @@ func (r *RunResult) stallAllowanceNs(sc *Scenario) int64 {
 		a += int64(sc.Cost.SetupStallMaxUs) * 1000
 	}
 	if sc.Cost.TimerFireStallPct > 0 {
-		a += int64(sc.Cost.TimerFireStallMaxUs) * 1000
+		a += 2 * int64(sc.Cost.TimerFireStallMaxUs) * 1000 // late start and late firing
 	}
 	return a
 }
@@ -200,6 +200,12 @@ func CheckUciHistory(sc *Scenario, out *UciRunOut, res *RunResult) {
 						break
 					}
 					res.count("pv_lines_checked", 1)
+					if bad := mateScoreWithoutMate(g.root, inf); bad != "" {
+						res.count("mate_pv_not_ending_in_mate", 1)
+						if hasGroup(sc.Checks, "c07") {
+							res.addViolation("C07", "mate_score_pv_not_mate", fmt.Sprintf("root %s (%s): %s in %q", g.root.Fen(), g.line, bad, inf))
+						}
+					}
 				}
 			}
 		}
@@ -535,4 +541,45 @@ func pvUnplayable(root *rules.Pos, info string) string {
 		}
 	}
 	return ""
+}
+
+// mateScoreWithoutMate: an iteration that reports "score mate n" together with
+// a principal variation of exactly the announced length has seen a checkmate
+// at the end of that line - the rules model must agree (a check of C07 that
+// does not depend on the terminal-node hook).
+func mateScoreWithoutMate(root *rules.Pos, info string) string {
+	f := strings.Fields(info)
+	n, have := 0, false
+	var pv []string
+	for i := 0; i < len(f); i++ {
+		if f[i] == "score" && i+2 < len(f) && f[i+1] == "mate" {
+			if v, err := strconv.Atoi(f[i+2]); err == nil {
+				n, have = v, true
+			}
+		}
+		if f[i] == "pv" {
+			pv = f[i+1:]
+			break
+		}
+	}
+	if !have || n == 0 {
+		return ""
+	}
+	want := 2*n - 1
+	if n < 0 {
+		want = -2 * n
+	}
+	if len(pv) != want {
+		return ""
+	}
+	p := root.Clone()
+	for _, m := range pv {
+		if p.Play(m) != nil {
+			return "" // decided by the pv legality check
+		}
+	}
+	if len(p.LegalMoves()) == 0 && p.InCheck() {
+		return ""
+	}
+	return fmt.Sprintf("the pv ends in %s which is not checkmate (%d legal moves, in check %v)", p.Fen(), len(p.LegalMoves()), p.InCheck())
 }
